@@ -85,28 +85,66 @@ def r1(ctx):
               f"groups are named `{nm}` ({scheme}) but visited in {order} order (`{detail[:70]}`): from 10 samples on the reloaded order differs "
               f"('10' sorts before '2')" + ("" if start is None else "; enumeration does not start at 0"))
     # --- dataset/attr symmetry
-    def writer_kinds(loop_or_fn, dict_name):
-        ifs = [n for n in walk_own(loop_or_fn) if isinstance(n, ast.If) and "isinstance" in U(n.test) and "ArrayType" in U(n.test)]
+    def writer_kinds(fnode):
+        """per `for K, V in D.items()` loop: (loop, dataset writes, attribute writes) with the polarity of the
+        isinstance(V, ArrayType) test each is reached under (early `continue` exits included)"""
+        from engine.astutil import stmt_conditions
         out = []
-        for n in ifs:
-            ds = [c for c in calls(ast.Module(body=n.body, type_ignores=[]), tail="create_dataset")]
-            at = [c for c in calls(ast.Module(body=n.orelse, type_ignores=[])) if attr_tail(c) == "create" or attr_tail(c) == "__setitem__"]
-            at2 = [x for x in n.orelse if isinstance(x, ast.Assign) and "attrs" in U(x.targets[0])]
-            out.append((n, ds, at or at2))
+        for loop in [n for n in walk_own(fnode) if isinstance(n, ast.For)]:
+            it = loop.iter
+            if not (isinstance(it, ast.Call) and attr_tail(it) == "items" and isinstance(loop.target, ast.Tuple) and len(loop.target.elts) == 2):
+                continue
+            K, V = U(loop.target.elts[0]), U(loop.target.elts[1])
+            conds = stmt_conditions(loop.body)
+            ds, at, odd = [], [], []
+            for st in walk_own(ast.Module(body=loop.body, type_ignores=[])):
+                if not isinstance(st, (ast.Expr, ast.Assign)) or id(st) not in conds:
+                    continue
+                pol = None
+                unknown = False
+                for t, p_ in conds[id(st)]:
+                    tt = U(t).replace(" ", "")
+                    if tt == f"isinstance({V},ArrayType)":
+                        pol = p_
+                    elif tt == f"notisinstance({V},ArrayType)":
+                        pol = not p_
+                    else:
+                        unknown = True
+                c = st.value if isinstance(st.value, ast.Call) else None
+                is_ds = c is not None and attr_tail(c) == "create_dataset"
+                is_at = (c is not None and attr_tail(c) in ("create", "__setitem__") and "attrs" in U(c.func)) or \
+                        (isinstance(st, ast.Assign) and "attrs" in U(st.targets[0]))
+                if not (is_ds or is_at):
+                    continue
+                if unknown or pol is None:
+                    odd.append(st)
+                elif is_ds and pol is True:
+                    ds.append(c)
+                elif is_at and pol is False:
+                    at.append(st)
+                else:
+                    odd.append(st)
+            if ds or at or odd:
+                out.append((loop, K, V, ds, at, odd))
         return out
-    wk = writer_kinds(sf.node, None)
+    wk = writer_kinds(sf.node)
     ctx.need(len(wk) >= 2, "ThetaHolder.save_h5: array/scalar dispatch not found for shared and private parameters")
-    lossy = []
-    for n, ds, at in wk:
-        good = len(ds) == 1 and len(at) == 1
+    for j, (loop, K, V, ds, at, odd) in enumerate(wk):
+        lossy = []
+        good = len(ds) == 1 and len(at) == 1 and not odd
         if good:
             d = kwargs(ds[0]).get("data")
-            good = d is not None and isinstance(d, ast.Name) and U(ds[0].args[0]) == "key"
+            good = d is not None and U(d) == V and U(ds[0].args[0]) == K
+            a0 = at[0]
+            if isinstance(a0, ast.Expr):
+                good = good and [U(x) for x in a0.value.args] == [K, V]
+            else:
+                good = good and U(a0.targets[0]).replace(" ", "").endswith(f".attrs[{K}]") and U(a0.value) == V
             lossy += common.lossy_transformers(ds[0])
             for k in ds[0].keywords:
                 if k.arg == "dtype":
                     lossy.append(f"dtype={U(k.value)}")
-        ctx.check("R1", f"{sf.site()}::array->dataset,scalar->attr#{wk.index((n, ds, at))}", good and not lossy,
+        ctx.check("R1", f"{sf.site()}::array->dataset,scalar->attr#{j}", good and not lossy,
                   "arrays are stored as datasets under their key, everything else as an attribute",
                   f"writer dispatch is not (array -> create_dataset(key, data=val), scalar -> attrs): lossy={lossy}")
     # reader: attrs.items() and datasets [:] both read, for shared and private
@@ -200,35 +238,127 @@ def sample_classes(ctx):
     sd = inline(sr[0].value, {k: v for k, v in senv.items() if isinstance(v, ast.Dict)}) if len(sr) == 1 else None
     if not isinstance(sd, ast.Dict):
         raise AnalysisError(f"{sf.site()}: shared export is not a dict literal")
-    items = [k for k, v in senv.items() if U(v).replace(" ", "") == "list(self.single_effect_lookup.items())"]
-    forms = {}
-    for k, v in zip(sd.keys, sd.values):
-        forms[k.value] = inline(v, {a: b for a, b in senv.items() if a not in items})
-    it = items[0] if items else "?"
-    want = {"single_effect_lookup_keys1": f"np.array([x[0][0]forxin{it}])", "single_effect_lookup_keys2": f"np.array([x[0][1]forxin{it}])",
-            "single_effect_lookup_vals": f"np.array([x[1]forxin{it}])"}
-    def strip_dtype(e):
-        import copy
-        e = copy.deepcopy(e)
-        for n in ast.walk(e):
-            if isinstance(n, ast.Call) and call_name(n) == "np.array":
-                n.keywords = [k for k in n.keywords if k.arg != "dtype"]   # narrowing is judged separately below
-        return e
-    got = {k: U(strip_dtype(v)).replace(" ", "") for k, v in forms.items()}
+    # writer: every exported column is a projection (key[0] / key[1] / value) of the items of self.single_effect_lookup, in item order
+    cols = lookup_columns(sf, sd, senv)
     lossy = []
-    for v in forms.values():
-        lossy += common.lossy_transformers(v)
-    plain = {k: v for k, v in got.items()}
-    ok_shared = all(plain.get(k) == w for k, w in want.items()) and len(plain) == 3
-    # reader side
+    for v in sd.values:
+        lossy += common.lossy_transformers(inline(v, senv))
+    for n in walk_own(sf.node):
+        if isinstance(n, ast.Call) and isinstance(n.func, ast.Attribute) and n.func.attr == "append":
+            lossy += common.lossy_transformers(n)
+    got = cols
+    # reader: dict keyed by (A[i], B[i]) with value C[i]
+    read = lookup_reader(fd, sp, fenv)
     lookups = [n for n in walk_own(fd.node) if isinstance(n, ast.Subscript) and U(n.value) == sp and isinstance(n.slice, ast.Constant)]
     read_keys = sorted({n.slice.value for n in lookups})
-    fsrc = U(fd.node).replace(" ", "")
-    ok_read = read_keys == sorted(want) and f"zip({sp}['single_effect_lookup_keys1'],{sp}['single_effect_lookup_keys2'])" in fsrc \
-        and f"{sp}['single_effect_lookup_vals']" in fsrc and "dict(zip(" in fsrc
+    ok_shared = len(cols) == 3 and sorted(cols.values()) == ["key0", "key1", "val"]
+    ok_read = read is not None and len(set(read)) == 3 and sorted(read) == sorted(cols) and read_keys == sorted(cols) \
+        and [cols.get(k) for k in read] == ["key0", "key1", "val"]
     ctx.check("R1", f"{cq.split('.', 1)[1]}::single_effect_lookup<->shared", ok_shared and ok_read and not lossy,
               "lookup exported as (key1, key2, value) columns in item order and rebuilt by zipping them back, no narrowing",
               f"single-effect table is not exported/rebuilt losslessly: export {got}; lossy {lossy}; reader keys {read_keys}")
+
+
+LOOKUP = "self.single_effect_lookup"
+
+
+def _projection(e, kname, vname, k0=None, k1=None, item=None):
+    """key0 / key1 / val for an element expression over the loop variables of `for key, value in lookup.items()`"""
+    t = U(e).replace(" ", "")
+    table = {}
+    if item:
+        table.update({f"{item}[0][0]": "key0", f"{item}[0][1]": "key1", f"{item}[1]": "val"})
+    if kname:
+        table.update({f"{kname}[0]": "key0", f"{kname}[1]": "key1"})
+    if vname:
+        table[vname] = "val"
+    if k0:
+        table[k0] = "key0"
+    if k1:
+        table[k1] = "key1"
+    return table.get(t)
+
+
+def _items_target(tgt):
+    """loop target over .items(): (item, key, value, k0, k1) names"""
+    if isinstance(tgt, ast.Name):
+        return tgt.id, None, None, None, None
+    if isinstance(tgt, ast.Tuple) and len(tgt.elts) == 2:
+        k, v = tgt.elts
+        vn = v.id if isinstance(v, ast.Name) else None
+        if isinstance(k, ast.Name):
+            return None, k.id, vn, None, None
+        if isinstance(k, ast.Tuple) and len(k.elts) == 2 and all(isinstance(x, ast.Name) for x in k.elts):
+            return None, None, vn, k.elts[0].id, k.elts[1].id
+    return None, None, None, None, None
+
+
+def lookup_columns(sf, sd, senv):
+    """{exported key: 'key0'|'key1'|'val'} for the shared export; AnalysisError for a form outside the recognised ones"""
+    def is_items(e):
+        t = U(inline(e, senv)).replace(" ", "")
+        return t in (f"list({LOOKUP}.items())", f"{LOOKUP}.items()", f"tuple({LOOKUP}.items())")
+    # loop-append columns
+    appended = {}
+    for loop in [n for n in walk_own(sf.node) if isinstance(n, ast.For) and is_items(n.iter)]:
+        item, kn, vn, k0, k1 = _items_target(loop.target)
+        for st in loop.body:
+            c = st.value if isinstance(st, ast.Expr) and isinstance(st.value, ast.Call) else None
+            if c is None or not (isinstance(c.func, ast.Attribute) and c.func.attr == "append" and isinstance(c.func.value, ast.Name) and len(c.args) == 1):
+                raise AnalysisError(f"{sf.site()}: statement `{U(st)[:60]}` in the lookup export loop is not a column append")
+            nm = c.func.value.id
+            if nm in appended:
+                raise AnalysisError(f"{sf.site()}: column `{nm}` appended twice per item")
+            appended[nm] = _projection(c.args[0], kn, vn, k0, k1, item) or f"?{U(c.args[0])}"
+    cols = {}
+    for k, v in zip(sd.keys, sd.values):
+        e = inline(v, {a: b for a, b in senv.items() if a not in appended and not is_items(b)})
+        if isinstance(e, ast.Call) and call_name(e) in ("np.array", "np.asarray", "list") and e.args:
+            e0 = e.args[0]
+        else:
+            e0 = e
+        if isinstance(e0, ast.Name) and e0.id in appended:
+            init = [n for n in walk_own(sf.node) if isinstance(n, ast.Assign) and U(n.targets[0]) == e0.id]
+            if len(init) != 1 or not (isinstance(init[0].value, ast.List) and not init[0].value.elts):
+                raise AnalysisError(f"{sf.site()}: column `{e0.id}` does not start empty")
+            cols[k.value] = appended[e0.id]
+        elif isinstance(e0, ast.ListComp) and len(e0.generators) == 1 and not e0.generators[0].ifs and is_items(e0.generators[0].iter):
+            item, kn, vn, k0, k1 = _items_target(e0.generators[0].target)
+            cols[k.value] = _projection(e0.elt, kn, vn, k0, k1, item) or f"?{U(e0.elt)}"
+        else:
+            raise AnalysisError(f"{sf.site()}: exported column `{k.value}` = `{U(e)[:80]}` is not a recognised projection of the lookup's items")
+    return cols
+
+
+def lookup_reader(fd, sp, fenv):
+    """(A, B, C): the rebuilt lookup maps (shared[A][i], shared[B][i]) -> shared[C][i]; None if the form is not recognised"""
+    def key_of(e):
+        e = inline(e, fenv)
+        if isinstance(e, ast.Subscript) and U(e.value) == sp and isinstance(e.slice, ast.Constant):
+            return e.slice.value
+        return None
+    cands = [n for n in ast.walk(fd.node) if isinstance(n, (ast.Call, ast.DictComp))]
+    for n in cands:
+        if isinstance(n, ast.Call) and U(n.func) == "dict" and len(n.args) == 1:
+            z = inline(n.args[0], fenv)
+            if isinstance(z, ast.Call) and U(z.func) == "zip" and len(z.args) == 2:
+                kz = inline(z.args[0], fenv)
+                if isinstance(kz, ast.Call) and U(kz.func) == "zip" and len(kz.args) == 2:
+                    r = (key_of(kz.args[0]), key_of(kz.args[1]), key_of(z.args[1]))
+                    if None not in r:
+                        return r
+        if isinstance(n, ast.DictComp) and len(n.generators) == 1 and not n.generators[0].ifs:
+            g = n.generators[0]
+            z = inline(g.iter, fenv)
+            if isinstance(z, ast.Call) and U(z.func) == "zip" and len(z.args) == 3 and isinstance(g.target, ast.Tuple) and len(g.target.elts) == 3 \
+                    and all(isinstance(x, ast.Name) for x in g.target.elts):
+                names = [x.id for x in g.target.elts]
+                src = dict(zip(names, [key_of(a) for a in z.args]))
+                if isinstance(n.key, ast.Tuple) and len(n.key.elts) == 2 and all(isinstance(x, ast.Name) for x in n.key.elts) and isinstance(n.value, ast.Name):
+                    r = (src.get(n.key.elts[0].id), src.get(n.key.elts[1].id), src.get(n.value.id))
+                    if None not in r:
+                        return r
+    return None
 
 
 def r2(ctx):
@@ -266,23 +396,13 @@ def r2(ctx):
     ctx.need(len(me) == 1, "evaluate_model.main: ModelEvaluation(...) not found")
     cid = kwargs(me[0]).get("chain_ids")
     cname = U(cid)
-    loops = [n for n in walk_own(f.node) if isinstance(n, ast.For) and isinstance(n.iter, ast.Call) and call_name(n.iter) == "enumerate"]
-    ok = False
     why = f"chain ids `{cname}` are not built by enumerating `{listvar}` with each holder's own n_thetas"
-    for lp in loops:
-        if U(lp.iter.args[0]) != listvar or len(lp.iter.args) > 1 or lp.iter.keywords:
-            continue
-        iv, hv = [U(t) for t in lp.target.elts]
-        ext = [c for c in calls(lp, tail="extend")]
-        if len(ext) == 1:
-            a = U(ext[0].args[0]).replace(" ", "")
-            base = U(ext[0].func.value)
-            if a in (f"[{iv}]*{hv}.n_thetas", f"{hv}.n_thetas*[{iv}]", f"[{iv}]*len({hv}.thetas)"):
-                # the array passed is built from that list, unchanged
-                fin = [n for n in walk_own(f.node) if isinstance(n, ast.Assign) and U(n.targets[0]) == cname and isinstance(n.value, ast.Call)
-                       and call_name(n.value) == "np.array" and U(n.value.args[0]) == base]
-                init = [n for n in walk_own(f.node) if isinstance(n, ast.Assign) and U(n.targets[0]) == base and U(n.value) == "[]"]
-                ok = (cname == base or bool(fin)) and bool(init)
+    verdict = chain_id_form(f, cid, {k: v for k, v in env.items() if k not in (listvar, 'args')}, listvar)
+    if verdict is None:
+        raise AnalysisError(f"{f.site()}: chain ids `{U(inline(cid, env))[:120]}` are built in a form outside the recognised ones (loop-extend, flattened per-holder segments, repeat)")
+    ok = verdict == "ok"
+    if not ok:
+        why += f" ({verdict})"
     # the list itself is in argument order
     ldef = [n for n in walk_own(f.node) if isinstance(n, ast.Assign) and U(n.targets[0]) == listvar]
     order_ok = len(ldef) == 1 and isinstance(ldef[0].value, ast.ListComp) and U(ldef[0].value.generators[0].iter) == "args.thetas" \
@@ -294,6 +414,89 @@ def r2(ctx):
     th = kwargs(pv[0]).get("thetas") if pv else None
     ok = th is not None and U(inline(th, {k: v for k, v in env.items() if k == U(th)})).replace(" ", "").endswith(f".concat({listvar})")
     ctx.check("R2", f"{f.site()}::same-list", ok, "prediction columns come from concat of the same list", "predictions are not computed on the concatenation of the list that labels the chains")
+
+
+def _segment(elt, iv, hv):
+    t = U(elt).replace(" ", "")
+    return t in (f"[{iv}]*{hv}.n_thetas", f"{hv}.n_thetas*[{iv}]", f"[{iv}]*len({hv}.thetas)", f"np.full({hv}.n_thetas,{iv})", f"np.repeat({iv},{hv}.n_thetas)")
+
+
+def _enum_target(gen_or_loop):
+    it, tgt = gen_or_loop.iter, gen_or_loop.target
+    if not (isinstance(it, ast.Call) and call_name(it) == "enumerate" and isinstance(tgt, ast.Tuple) and len(tgt.elts) == 2 and all(isinstance(x, ast.Name) for x in tgt.elts)):
+        return None
+    start = (len(it.args) > 1 and U(it.args[1]) != "0") or any(U(k.value) != "0" for k in it.keywords)
+    return U(it.args[0]), tgt.elts[0].id, tgt.elts[1].id, start
+
+
+def chain_id_form(f, cid, env, listvar):
+    """'ok' when the chain-id vector is [0]*n_0 + [1]*n_1 + ... over `listvar` in order; a reason string when it is one of the
+    recognised constructions over something else; None when the construction is not recognised"""
+    def over(lst, start):
+        if start:
+            return "enumeration does not start at 0"
+        return "ok" if lst == listvar else f"enumerates `{lst}`, not `{listvar}`"
+
+    e = inline(cid, env)
+    while isinstance(e, ast.Call) and call_name(e) in ("np.array", "np.asarray", "list", "np.fromiter", "np.concatenate", "np.hstack") and e.args and \
+            not (call_name(e) in ("np.concatenate", "np.hstack") and isinstance(inline(e.args[0], env), (ast.ListComp, ast.GeneratorExp))):
+        e = inline(e.args[0], env)
+    # flattening of per-holder segments
+    if isinstance(e, ast.Call) and (call_name(e) in ("itertools.chain.from_iterable", "chain.from_iterable", "np.concatenate", "np.hstack") or
+                                    (call_name(e) == "sum" and len(e.args) == 2 and U(e.args[1]) == "[]")) and e.args:
+        seg = inline(e.args[0], env)
+        if isinstance(seg, (ast.ListComp, ast.GeneratorExp)) and len(seg.generators) == 1 and not seg.generators[0].ifs:
+            et = _enum_target(seg.generators[0])
+            if et and _segment(seg.elt, et[1], et[2]):
+                return over(et[0], et[3])
+        return None
+    # [i for i, h in enumerate(L) for _ in range(h.n_thetas)]
+    if isinstance(e, (ast.ListComp, ast.GeneratorExp)) and len(e.generators) == 2 and not any(g.ifs for g in e.generators):
+        et = _enum_target(e.generators[0])
+        g2 = e.generators[1]
+        if et and U(e.elt) == et[1] and U(g2.iter).replace(" ", "") in (f"range({et[2]}.n_thetas)", f"range(len({et[2]}.thetas))"):
+            return over(et[0], et[3])
+        return None
+    # np.repeat(np.arange(len(L)), [h.n_thetas for h in L])
+    if isinstance(e, ast.Call) and call_name(e) == "np.repeat" and len(e.args) == 2:
+        a0, a1 = inline(e.args[0], env), inline(e.args[1], env)
+        if isinstance(a1, ast.ListComp) and len(a1.generators) == 1 and not a1.generators[0].ifs and isinstance(a1.generators[0].target, ast.Name):
+            hv = a1.generators[0].target.id
+            lst = U(a1.generators[0].iter)
+            if U(a1.elt) == f"{hv}.n_thetas" and U(a0).replace(" ", "") == f"np.arange(len({lst}))":
+                return over(lst, False)
+        return None
+    # loop-extend into a list that starts empty
+    base = None
+    if isinstance(e, ast.Name):
+        base = e.id
+    elif isinstance(cid, ast.Name):
+        base = cid.id
+    if base is None:
+        return None
+    names = {base}
+    # chain_ids = np.array(chain_ids) re-binding: the list and the array share one name
+    for n in walk_own(f.node):
+        if isinstance(n, ast.Assign) and U(n.targets[0]) in names and isinstance(n.value, ast.Call) and call_name(n.value) in ("np.array", "np.asarray") and n.value.args:
+            names.add(U(n.value.args[0]))
+    verdicts = []
+    for lp in [n for n in walk_own(f.node) if isinstance(n, ast.For)]:
+        ext = [c for c in calls(lp, tail="extend") if U(c.func.value) in names] + [c for c in calls(lp, tail="append") if U(c.func.value) in names]
+        if not ext:
+            continue
+        et = _enum_target(lp)
+        if et is None or len(ext) != 1 or attr_tail(ext[0]) != "extend":
+            return None
+        if not _segment(ext[0].args[0], et[1], et[2]):
+            return f"extends by `{U(ext[0].args[0])}`"
+        lname = U(ext[0].func.value)
+        init = [n for n in walk_own(f.node) if isinstance(n, ast.Assign) and U(n.targets[0]) == lname and U(n.value) == "[]"]
+        if not init:
+            return None
+        verdicts.append(over(et[0], et[3]))
+    if len(verdicts) == 1:
+        return verdicts[0]
+    return None
 
 
 def r3(ctx):
